@@ -53,9 +53,10 @@ def gen_cases(tier, seed):
         lo2 = lo if abs(lo) > 179 else lo + lon_shift
         # the time axis does not start at zero on every second lattice point (dyadic offset: exact stamps)
         t0 = 777.25 if (len(cases) % 2) else 0.0
+        nonuni = len(cases) % 4 == 1          # nested non-uniform grids (intervals 0.5/1.5 dt, refined by midpoints)
         cases.append(dict(part='moving', lat=la, lon=lo2, alt=al, speed=sp, course=co, climb=cl,
                           attitude=att, weave=weave, form=form, type=typ, ladder=ldr, T=8.0,
-                          phase=phase, t0=t0))
+                          phase=phase, t0=t0, nonuniform=nonuni))
     # long fast meridional flights (1 h): the latitude fixed-point iteration of the
     # initial-position form only matters here
     for la, co, form, typ in itertools.product((38.0, -38.0), (0.0, 180.0), FORMS, ('rate', 'increment')):
@@ -76,7 +77,8 @@ def gen_cases(tier, seed):
     for la, al, r, p, h, form, typ in itertools.product(lats, alts, rolls, pitches, heads, FORMS,
                                                         ('rate', 'increment')):
         cases.append(dict(part='rest', lat=la, lon=20.0 + lon_shift, alt=al, roll=r, pitch=p,
-                          heading=h + 0.5 * (seed % 8), form=form, type=typ))
+                          heading=h + 0.5 * (seed % 8), form=form, type=typ,
+                          stamps='alternating' if len(cases) % 2 else 'uniform'))
     return cases
 
 
@@ -114,6 +116,14 @@ def run_moving(case):
     for dt in ldr:
         n = int(round(T / dt))
         t = np.arange(n + 1) * dt
+        if case.get('nonuniform'):
+            # coarsest grid: intervals alternate 0.5/1.5 of the nominal step; every finer grid splits each interval of
+            # the coarser one at its midpoint (nested, still non-uniform)
+            n0 = int(round(T / ldr[0]))
+            t = np.concatenate([[0.0], np.cumsum(np.tile([0.5 * ldr[0], 1.5 * ldr[0]], n0 // 2))])
+            for _ in range(ldr.index(dt)):
+                t = np.sort(np.concatenate([t, 0.5 * (t[:-1] + t[1:])]))
+            n = len(t) - 1
         t_user = t + case.get('t0', 0.0)        # the motion is the same, the user's clock is shifted
         lla = m.lla(t)
         lla_deg = np.column_stack([lla[:, 0] * geo.R2D, lla[:, 1] * geo.R2D, lla[:, 2]])
@@ -131,7 +141,7 @@ def run_moving(case):
         if typ == 'rate':
             w, f = m.imu(t)
         else:
-            tp = np.concatenate([[t[0] - dt], t[:-1]])
+            tp = np.concatenate([[t[0] - (t[1] - t[0])], t[:-1]])
             w, f = m.integrals(tp, t)
             w[0], f[0] = w[1], f[1]          # documented: first sample duplicated
         g = imu.values[:, :3]
@@ -142,7 +152,7 @@ def run_moving(case):
         integ.integrate(inc)
         sol = integ.trajectory.values
         o = dict(dt=dt, t=t, g=g, a=a, w=w, f=f, traj=traj.values, sol=sol)
-        if typ == 'increment' and form == 'lla_vel' and not case.get('long'):
+        if typ == 'increment' and form == 'lla_vel' and not case.get('long') and not case.get('nonuniform'):
             # interior accuracy per unit time of the increment readings vs that of the rate readings of the
             # same call arguments (the splines are the same): see the order oracle below
             _, imu_r = call_generate(form, t_user, lla_deg, rph_deg, vel, 'rate')
@@ -179,9 +189,9 @@ def run_moving(case):
         # increment readings are compared per unit time (increment / dt = average over the interval): the average
         # over an interval is the MEAN of the averages over its two halves, so the telescoped law holds with unit
         # weights (for the raw increments the errors of the two halves add and the weights would be 2^j)
-        per = dt if inc_type else 1.0
-        E['gyro'].append(np.abs(o['g'] - o['w']).max() / per)
-        E['accel'].append(np.abs(o['a'] - o['f']).max() / per)
+        per = np.concatenate([[o['t'][1] - o['t'][0]], np.diff(o['t'])])[:, None] if inc_type else 1.0
+        E['gyro'].append((np.abs(o['g'] - o['w']) / per).max())
+        E['accel'].append((np.abs(o['a'] - o['f']) / per).max())
         lla_true = m.lla(o['t'])
         E['traj_pos'].append(pos_m(o['traj'][:, 0] - lla_true[:, 0] * geo.R2D,
                                    o['traj'][:, 1] - lla_true[:, 1] * geo.R2D,
@@ -210,8 +220,9 @@ def run_moving(case):
         if inc_type:
             gs = fn['g'][1::2] + fn['g'][2::2]
             as_ = fn['a'][1::2] + fn['a'][2::2]
-            H['gyro'].append(np.abs(c['g'][1:] - gs).max() / c['dt'])
-            H['accel'].append(np.abs(c['a'][1:] - as_).max() / c['dt'])
+            dtc = np.diff(c['t'])[:, None]
+            H['gyro'].append((np.abs(c['g'][1:] - gs) / dtc).max())
+            H['accel'].append((np.abs(c['a'][1:] - as_) / dtc).max())
         else:
             H['gyro'].append(np.abs(c['g'] - fn['g'][::2]).max())
             H['accel'].append(np.abs(c['a'] - fn['a'][::2]).max())
@@ -238,7 +249,7 @@ def run_moving(case):
                                          (1, 'accel', lambda d: 40 * EPS * R_EARTH / d ** 2, lambda d: 40 * EPS * R_EARTH / d ** 2)):
             ei = [(o['dt'], o['interior'][ch]) for o in outs if o['interior'][ch] > 30 * floor_i(o['dt'])]
             er = [(o['dt'], o['interior'][ch + 2]) for o in outs if o['interior'][ch + 2] > 30 * floor_r(o['dt'])]
-            if len(ei) >= 2 and len(er) >= 2:
+            if len(ei) >= 3 and len(er) >= 3:          # a slope from two rungs next to the floor is not a measurement
                 si = np.log(ei[0][1] / ei[-1][1]) / np.log(ei[0][0] / ei[-1][0])
                 sr = np.log(er[0][1] / er[-1][1]) / np.log(er[0][0] / er[-1][0])
                 stats['min_order_margin_' + nm] = float(si - sr)
@@ -276,7 +287,10 @@ def run_moving(case):
 def run_rest(case):
     dt = 0.5
     t = np.arange(0, 9) * dt
+    if case.get('stamps') == 'alternating':
+        t = np.concatenate([[0.0], np.cumsum(np.tile([0.25, 0.75], 4))])      # non-uniform sampling, same span
     n = len(t)
+    dts = np.concatenate([[t[1] - t[0]], np.diff(t)])
     lla = np.tile([case['lat'], case['lon'], case['alt']], (n, 1))
     rph = np.tile([case['roll'], case['pitch'], case['heading']], (n, 1))
     vel = np.zeros((n, 3))
@@ -287,9 +301,11 @@ def run_rest(case):
     c = kin._c_nb(case['roll'] * geo.D2R, case['pitch'] * geo.D2R, case['heading'] * geo.D2R)
     w_exp = c.T @ geo.earth_rate_n(lat)
     f_exp = -c.T @ np.array([0.0, 0.0, geo.grav(lat, case['alt'])])
-    scale = dt if typ == 'increment' else 1.0
+    scale = dts[:, None] if typ == 'increment' else 1.0       # each increment spans ITS OWN interval
     eg = np.abs(imu.values[:, :3] - w_exp * scale).max()
     ea = np.abs(imu.values[:, 3:] - f_exp * scale).max()
+    dt = float(np.min(dts))
+    scale = float(np.max(dts)) if typ == 'increment' else 1.0
     # round-off of differentiating positions of |r| twice over dt, spline of a circle: (RATE dt)^2 relative
     tol_a = (40 * EPS * R_EARTH / dt ** 2 + 0.034 * (geo.RATE * dt) ** 2) * scale
     tol_g = (64 * EPS / dt + geo.RATE * (geo.RATE * dt) ** 2) * scale
